@@ -318,13 +318,40 @@ class RecAxes:
     def _rec(self, kind, args, kw):
         self.calls.append((kind, args, kw))
 
+    @staticmethod
+    def _regular(args):
+        """matplotlib converts every data argument with np.atleast_1d / np.asanyarray: a sequence whose elements have
+        different shapes (e.g. 1-element arrays mixed with scalars) raises ValueError there (numpy >= 1.24)"""
+        def eshape(e):
+            if isinstance(e, np.ndarray):
+                return e.shape
+            if isinstance(e, (list, tuple)):
+                return (len(e),)
+            return ()
+
+        for a in args:
+            if isinstance(a, np.ndarray):
+                if a.dtype != object:
+                    continue
+                elems = list(a.view(np.ndarray).flat)
+            elif isinstance(a, (list, tuple)):
+                elems = list(a)
+            else:
+                continue
+            shapes = {eshape(e) for e in elems}
+            if len(shapes) > 1:
+                raise ValueError("setting an array element with a sequence. The requested array has an inhomogeneous "
+                                 f"shape (element shapes {sorted(shapes)})")
+
     def plot(self, *args, **kw):
+        self._regular(args)
         self._rec("plot", args, kw)
         ln = _Dummy()
         self.lines.append(ln)
         return [ln]
 
     def scatter(self, *args, **kw):
+        self._regular(args)
         self._rec("scatter", args, kw)
         return _Dummy()
 
